@@ -34,6 +34,23 @@ extern int32_t g_k;
     __CPROVER_assigns(i, n_u, n_m, bad) \
     __CPROVER_loop_invariant(0 <= i && i <= k && bad == 0 && n_u == i && n_m == i) \
     __CPROVER_decreases(k - i)
+/* tLweSymEncrypt: b += message, coefficient-wise */
+#define LOOP_tLweSymEncrypt_0(j) \
+    __CPROVER_assigns(j, __CPROVER_object_whole(result->b->coefsT)) \
+    __CPROVER_loop_invariant(0 <= j && j <= N) \
+    __CPROVER_loop_invariant(result->b->coefsT[g_k] == ((j) > g_k ? (Torus32)((uint32_t)LENTRY(result->b->coefsT[g_k]) + (uint32_t)message->coefsT[g_k]) : LENTRY(result->b->coefsT[g_k]))) \
+    __CPROVER_decreases(N - j)
+/* tLwePhase: k multiply-subtracts (monitor counts and checks operands) */
+#define LOOP_tLwePhase_0(i) \
+    __CPROVER_assigns(i, n_sub, bad) \
+    __CPROVER_loop_invariant(0 <= i && i <= k && bad == 0 && n_sub == i) \
+    __CPROVER_decreases(k - i)
+/* tLweApproxPhase: coefficient-wise rounding (approxPhase is a one-point uninterpreted function on the watched coefficient) */
+#define LOOP_tLweApproxPhase_0(i) \
+    __CPROVER_assigns(i, __CPROVER_object_whole(message->coefsT), n_ap, ap_bad) \
+    __CPROVER_loop_invariant(0 <= i && i <= N && ap_bad == 0) \
+    __CPROVER_loop_invariant((i) > g_k ==> message->coefsT[g_k] == w_out) \
+    __CPROVER_decreases(N - i)
 /* tGswEncryptZero: loop over the kpl rows */
 #define LOOP_tGswEncryptZero_0(p) \
     __CPROVER_assigns(p, n_calls, n_watched, bad, last) \
